@@ -1,5 +1,27 @@
-"""C17: deterministic witnesses of open findings."""
+"""C17: deterministic witness of the open finding unparsable_condition_blocks_renames."""
+import json
+
+from vlib import snapshot
+from vlib.client import EngineProc
 
 
 def run(acc):
-  acc.count('witness_runs')
+  """A dropdown condition that is no Python at all (stored by AddColumn, which does not parse it - the path the
+  upstream test uses for its invalid formula): the statement says it is left untouched; in fact every column
+  rename of the document raises, because process_renames calls get_dollar_replacer outside its try block."""
+  with EngineProc() as p:
+    p.init_doc()
+    p.apply([['AddTable', 'T', [{'id': 'A', 'type': 'Text', 'isFormula': False}, {'id': 'B', 'type': 'Text', 'isFormula': False}]]])
+    p.apply([['AddColumn', 'T', 'C', {'type': 'Text', 'isFormula': False,
+                                      'widgetOptions': json.dumps({'dropdownCondition': {'text': 'rec.A =='}})}]])
+    S0 = snapshot.take(p)
+    acc.count('witness_runs')
+    r, err = p.try_apply([['RenameColumn', 'T', 'B', 'Bee']])
+    if err is not None:
+      acc.violation('unparsable_condition_blocks_renames', 'witness: T.C has the dropdown condition %r; RenameColumn T B Bee raised %s' % (
+          'rec.A ==', err.text[:160]), None)
+      return
+    S1 = snapshot.take(p)
+    C = [c for c in snapshot.rows_of(S1, '_grist_Tables_column').values() if c['colId'] == 'C'][0]
+    if json.loads(C['widgetOptions']) != {'dropdownCondition': {'text': 'rec.A =='}}:
+      acc.violation('unparsable_formula_touched', 'witness: widgetOptions of T.C became %r' % C['widgetOptions'], None)
